@@ -81,14 +81,14 @@ impl TablePrinter {
 
 pub struct FollowFileIterator {
     reader: BufReader<File>,
-    line: String
+    line: Vec<u8>
 }
 
 impl FollowFileIterator {
     pub fn new(reader: BufReader<File>) -> FollowFileIterator {
         FollowFileIterator {
             reader,
-            line: String::new()
+            line: Vec::new()
         }
     }
 }
@@ -98,13 +98,14 @@ impl Iterator for FollowFileIterator {
 
     fn next(&mut self) -> Option<Self::Item> {
         loop {
-            if let Err(_) = self.reader.read_line(&mut self.line) {
+            // Bytes are collected until the line is complete, an append may end in the middle of a character
+            if let Err(_) = self.reader.read_until(b'\n', &mut self.line) {
                 return None;
             }
 
-            // If we get an EOF in the middle of a line, read_line will return.
+            // If we get an EOF in the middle of a line, read_until will return.
             // We will then try again and use content of current read line
-            if !self.line.ends_with('\n') {
+            if !self.line.ends_with(b"\n") {
                 #[cfg(feature = "verif_hooks")]
                 if !verif_hooks::follow_retry() {
                     return None;
@@ -113,11 +114,9 @@ impl Iterator for FollowFileIterator {
                 continue;
             }
 
-            if self.line.ends_with('\n') {
-                self.line.pop();
-            }
+            self.line.pop();
 
-            return Some(std::mem::take(&mut self.line));
+            return Some(String::from_utf8_lossy(&std::mem::take(&mut self.line)).into_owned());
         }
     }
 }
